@@ -1,5 +1,6 @@
 import HdModel.Model.Util
 import HdModel.Model.DnsDriver
+import HdModel.Model.SniDriver
 /-! Line-protocol driver.  One case per line:
       `<stream> <input tokens…> | <implementation observation tokens…>`
     Output, one line per case:
@@ -14,6 +15,7 @@ def handle (line : String) : String :=
   let r : Bool × Bool × String × String :=
     match inp with
     | "dns" :: rest => Dns.driverLine rest obs
+    | "sni" :: rest => Sni.driverLine rest obs
     | _ => (false, false, "unknown-stream", "")
   s!"{boolTok r.1} {boolTok r.2.1} {r.2.2.1} | {r.2.2.2}"
 
